@@ -2,6 +2,7 @@
   C12 — Requests are dispatched by method, HTTP version and Content-Type as advertised.
 -/
 import ConnectModel.Dispatch
+import ConnectModel.Recover
 
 namespace ConnectModel.C12
 open ConnectModel
@@ -268,5 +269,20 @@ example : dispatch { kind := .bidi, codecs := [Gen.codecNameProto], handleGRPC :
 example : dispatch { kind := .unary, codecs := [Gen.codecNameProto, Gen.codecNameJSON], handleGRPC := true, handleGRPCWeb := false } 1
     methodPost Gen.grpcContentTypeDefault = .serve .grpc Gen.codecNameProto := by decide
 example : extractProtoPath [104, 47, 47, 120, 47, 97, 46, 66, 47, 67] = [47, 97, 46, 66, 47, 67] := by decide
+
+/-! ### the recovery function is user code too (fix F21) -/
+
+/-- **recover_sees_the_call**: whatever the RPC kind, the function installed with `WithRecover`
+    is handed the Spec the handler was built with and the request's headers. -/
+theorem recover_sees_the_call (call : CallInfo) :
+    handleArgsUnary call = call ∧ handleArgsStreaming call = call := ⟨rfl, rfl⟩
+
+/-- **History, F21**: the streaming wrapper used to pass an empty Spec and no headers -/
+theorem recover_saw_nothing_on_pinned (call : CallInfo) (h : call.procedure ≠ []) :
+    handleArgsStreamingPinned call ≠ call := by
+  intro heq
+  have := congrArg CallInfo.procedure heq
+  simp [handleArgsStreamingPinned] at this
+  exact h (by simpa using this.symm)
 
 end ConnectModel.C12
